@@ -1,7 +1,7 @@
 import sys, time
 from .facts import facts
 from .absint import Interp
-from .entries import default_args, install_offset_contract, install_partitions
+from .entries import default_args, install_offset_contract, install_partitions, install_splitter_contract
 from . import domain as D
 
 def main():
@@ -9,6 +9,7 @@ def main():
     I = Interp(F)
     if 'NOCONTRACT' not in __import__('os').environ: install_offset_contract(I)
     install_partitions(I)
+    if 'SPLIT' in __import__('os').environ: install_splitter_contract(I)
     I.debug = 'DEBUG' in __import__('os').environ
     pats = sys.argv[1:]
     names = [n for n in F.bodies if any(p in n for p in pats) and F.bodies[n]['kind'] in ('Fn', 'AssocFn')]
